@@ -204,6 +204,61 @@ fn builder_sweep(ctx: &Ctx) {
         end();
     });
     ctx.count("builder_cases", cases.len() as u64);
+    // every pattern (and a psk variant) x both roles x every subset of {local static, remote static, fixed ephemeral,
+    // psk} supplied with well-formed values: building - and the first step of whatever was built - returns
+    let mut subset_cases: Vec<(String, bool, u8)> = vec![];
+    for b in refnoise::patterns::base_patterns() {
+        for dh in ["25519", "P256"] {
+            for m in ["", "psk0", "psk1"] {
+                let name = format!("Noise_{}{m}_{dh}_AESGCM_BLAKE2s", b.name);
+                if name.parse::<snow::params::NoiseParams>().is_err() {
+                    continue;
+                }
+                for init in [true, false] {
+                    for mask in 0..16u8 {
+                        subset_cases.push((name.clone(), init, mask));
+                    }
+                }
+            }
+        }
+    }
+    subset_cases.par_iter().for_each(|(name, init, mask)| {
+        begin(|| format!("builder {name} key subset {mask:04b}"));
+        let dh = if name.contains("P256") { DhAlg::P256 } else { DhAlg::X25519 };
+        let sk = key_bytes(1);
+        let pk = dh.pubkey(&key_bytes(2)).unwrap();
+        let r = catch_unwind(AssertUnwindSafe(|| {
+            let mut b = Builder::new(name.parse().unwrap());
+            if mask & 1 != 0 {
+                b = b.local_private_key(&sk)?;
+            }
+            if mask & 2 != 0 {
+                b = b.remote_public_key(&pk)?;
+            }
+            if mask & 4 != 0 {
+                b = b.fixed_ephemeral_key_for_testing_only(&sk);
+            }
+            if mask & 8 != 0 {
+                b = b.psk(if name.contains("psk1") { 1 } else { 0 }, &[7u8; 32])?;
+            }
+            let mut h = if *init { b.build_initiator() } else { b.build_responder() }?;
+            let mut buf = vec![0u8; 1024];
+            if *init {
+                let _ = h.write_message(&[], &mut buf);
+            } else {
+                let _ = h.read_message(&buf[..96], &mut [0u8; 256]);
+            }
+            let _ = h.get_remote_static().map(<[u8]>::len);
+            Ok::<(), snow::Error>(())
+        }));
+        ctx.add(&ctx.evaluations, 1);
+        ctx.add(&ctx.nontrivial, 1);
+        if let Err(p) = r {
+            ctx.violation(format!("Builder panicked on a subset of well-formed keys ({})", panic_msg(p)), format!("{name} {} supplied: local static {}, remote static {}, fixed ephemeral {}, psk {}", if *init { "initiator" } else { "responder" }, mask & 1 != 0, mask & 2 != 0, mask & 4 != 0, mask & 8 != 0), json!({"kind": "builder", "name": name, "mask": mask, "init": init}));
+        }
+        end();
+    });
+    ctx.count("builder_key_subset_cases", subset_cases.len() as u64);
     // psk positions and lengths, Builder::psk and HandshakeState::set_psk
     for loc in 0..=12u8 {
         let r = catch_unwind(|| {
@@ -503,7 +558,7 @@ pub fn run(tier: Tier) -> i32 {
     let ctx = Ctx::new("C10", tier, "fault_enumeration");
     let thorough = !ctx.quick();
     start_watchdog();
-    ctx.set_rule("every case is one public call made inside catch_unwind: parsing (single-edit, non-ASCII, oversized strings) and building whatever parses; Builder with local/remote/fixed-ephemeral keys of every length 0..=200 x {25519, P256} x {NN, XX, IK, K} x both roles, prologues up to 100 000 bytes, psk positions 0..=12; for every handshake name of a suite and both DH functions: every reachable handshake state (honest prefix of 0..=2n calls, also after one failed call) x write_message with payload {0,4,65535,65536} x buffer lengths around every field boundary and {0,1,65534..66000} x read_message with genuine / truncated-at-every-boundary / constant / wrong-index / oversize messages x payload buffers {0,1,3,4,5,20,70000} x set_psk(0..=12, len {0,31,32,33}) x both conversions x getters; both transport modes with boundary nonces and sizes. Oracle: the call returns. A watchdog reports a call that does not return within 60 s");
+    ctx.set_rule("every case is one public call made inside catch_unwind: parsing (single-edit, non-ASCII, oversized strings) and building whatever parses; Builder with local/remote/fixed-ephemeral keys of every length 0..=200 x {25519, P256} x 8 patterns x every subset of the other keys x both roles, every pattern (+psk0/psk1) x {25519, P256} x both roles x every subset of well-formed {local, remote, fixed ephemeral, psk}, prologues up to 100 000 bytes, psk positions 0..=12; for every handshake name of a suite and both DH functions: every reachable handshake state (honest prefix of 0..=2n calls, also after one failed call) x write_message with payload {0,4,65535,65536} x buffer lengths around every field boundary and {0,1,65534..66000} x read_message with genuine / truncated-at-every-boundary / constant / wrong-index / oversize messages x payload buffers {0,1,3,4,5,20,70000} x set_psk(0..=12, len {0,31,32,33}) x both conversions x getters; both transport modes with boundary nonces and sizes. Oracle: the call returns. A watchdog reports a call that does not return within 60 s");
     let names = name_strings();
     names.par_iter().for_each(|s| check_name(&ctx, s));
     ctx.count("name_strings", names.len() as u64);
